@@ -10,7 +10,11 @@ from . import domains, events as EV, kmodel, strategies as S
 
 E = EV.E
 JUNK = ['INTERRUPT', 'DecrSet', 'BSC_pread_extended_info', 'RealFaultAddressPurgeable', 'MACH_vm_page_release',
-        0x99990000, 'PERF_THD_CSwitch', 'MACH_SCHED']
+        0x99990000, 'PERF_THD_CSwitch', 'MACH_SCHED',
+        # undecoded names that look like the records decoders search their windows for (same prefix, neighbouring id)
+        'VFS_LOOKUP_DONE', 'DYLD_uuid_map_32_a', 'DYLD_uuid_shared_cache_32_a', 'PERF_STK_USample', 'PERF_THD_Disp_Data',
+        'DBG_DYLD_TIMING_OBJC_INIT']
+LOOKALIKES = JUNK[8:]
 REAL_FAULT_KINDS = ['RealFaultAddressInternal', 'RealFaultAddressExternal', 'RealFaultAddressSharedCache',
                     'RealFaultAddressPurgeable']
 DYLD_STRING_OPS = {'DBG_DYLD_TIMING_DLOPEN': 1, 'DBG_DYLD_TIMING_DLOPEN_PREFLIGHT': 1, 'DBG_DYLD_TIMING_DLSYM': 2,
@@ -39,9 +43,18 @@ def ev(tid, code, q, seed, k=0):
     return E(tid, code, q, data=data)
 
 
+SPECIAL_PATHS = ['/.vol/', '/.vol/16777220', '/.vol/16777220/4295', '/.vol/16777220/4295/sub', '/dev/', '/dev/null', '//', '/..', '/.', '/a//b/', '/private/var/',
+                 '.', '..', 'relative/path', '/System/Volumes/Data/.vol/1/2']
+
+
 def path_text(seed, k):
-    """ASCII path of a length derived from the seed: boundary lengths favoured"""
+    """ASCII path of a length derived from the seed: boundary lengths favoured; one path in seven is a special shape
+    (volfs, device, relative, doubled or trailing slashes) or is built on a path-like string constant of the package source"""
     words = w(seed, 100 + k)
+    if words[3] % 7 == 0:
+        from . import dictionary
+        pool = SPECIAL_PATHS + [t + sfx for t in dictionary.path_tokens() for sfx in ('', '12', '12/34', 'x')]
+        return pool[words[2] % len(pool)].encode()[:184]
     lens = [0, 1, 5, 23, 24, 25, 40, 55, 56, 57, 88, 89, 120, 183, 184]
     n = lens[words[0] % len(lens)] if words[1] % 3 else words[0] % 185
     t = domains.ascii_text((words[2] | 1, words[3], n * 977, 5), 400)
